@@ -785,7 +785,11 @@ PROPS["C12"] = _dbg(
     "equal the loaded image) or `reset; quit` (the rest of the run is compared with the model).")
 PROPS["C13"] = _dbg(
     ["Lace.C13.move_reg_frame", "Lace.C13.move_mem_frame", "Lace.C13.resolveUser_spec", "Lace.C13.oob_refused",
-     "Lace.C13.inspect_readonly"],
+     "Lace.C13.inspect_readonly",
+     "Lace.C13.quiet_step", "Lace.C13.quiet_next", "Lace.C13.session_frame", "Lace.C13.session_mem_changed",
+     "Lace.C13.session_reg_changed", "Lace.C13.session_pc_changed", "Lace.C13.session_pc_inUser",
+     "Lace.C13.session_bps_changed", "Lace.C13.session_confined", "Lace.C13.session_readonly",
+     "Lace.C13.runCommand_setCmds", "Lace.C13.actionLoop_quiet", "Lace.C13.demo_session"],
     "after 0–2 steps, 1–4 probe commands move / goto / break add / break remove / print / assembly with wild locations "
     "(absolute addresses across the whole address space incl. 0, orig−1, xFDFF, xFE00, xFFFF; label ± offsets up to "
     "±32767; PC offsets at the signed 16-bit boundaries; unknown labels), every register, boundary values; then "
